@@ -200,7 +200,14 @@ def api_oracles(ctx, o3):
         x = torch.cat([x, torch.zeros(1, 3), torch.eye(3, dtype=torch.float64)])
         full = {l: o3.spherical_harmonics(l, x, False, "component") for l in range(12)}
         rng = ctx.rng
-        specs = [0, 3, 11, [0, 1, 2], [2, 2, 0], [5, 1, 3, 1], "1o", "0e + 1o + 2e", "2x1o + 0e", "3o + 1o", o3.Irreps("2e + 2e"), o3.Irreps.spherical_harmonics(4), o3.Irreps.spherical_harmonics(3, -1)]
+        # every branch `lmax == k` of the generated function (full ranges), and permutations of full ranges
+        specs = [list(range(k + 1)) for k in range(12)]
+        specs += [[1, 0], [2, 0, 1], [0, 2, 1, 3], [3, 2, 1, 0], "1o+0e", "2e+0e+1o", o3.Irreps("1o+2e+0e+3o")]
+        for k in range(2, 12):
+            perm = list(range(k + 1))
+            rng.shuffle(perm)
+            specs.append(perm)
+        specs += [0, 3, 11, [0, 1, 2], [2, 2, 0], [5, 1, 3, 1], "1o", "0e + 1o + 2e", "2x1o + 0e", "3o + 1o", o3.Irreps("2e + 2e"), o3.Irreps.spherical_harmonics(4), o3.Irreps.spherical_harmonics(3, -1)]
         for _ in range(6 if ctx.tier == "quick" else 40):
             specs.append([rng.randint(0, 11) for _ in range(rng.randint(1, 5))])
         for spec in specs:
